@@ -37,6 +37,11 @@ Constructs (the readings of Python they rely on are listed as TRUSTED readings i
   E("..") / E(f"..") as a value     an exception object, kept as its class (type EXN)
   x: T  without a value             declares the type of the local x (spec["annotations"])
   `if x:` for x : T | None          truthy_opt <spec["truthy"][T]> x
+  k in xs / k not in xs             for xs : L:T with spec["eqbs"][T]:  existsb (eqb k) xs
+  spec["casts"][(T1, T2)]           a value of type T1 used where T2 is wanted: the Coq text the spec gives
+  spec["abstract_blocks"]           a run of statements accepted only with exactly the given source text, read as
+                                    `let x := <spec text> in` for each name it binds (a function of the names it
+                                    reads; it has no effect)
   def f(.., **kw)                   with spec["kwarg"] = the dict type of kw
 """
 from __future__ import annotations
@@ -59,6 +64,8 @@ def coerce_hook(tr, text, ty, want):
         return "None"
     if isinstance(want, str) and want == "O:" + ty:
         return f"(Some {text})"
+    if (ty, want) in tr.spec.get("casts", {}):
+        return tr.spec["casts"][(ty, want)].format(text)
     if want == "B" and ty in tr.dicts:
         return f"(nonempty {text})"                      # a dict is truthy iff it has a pair
     if want == "B" and ty.startswith("O:") and ty[2:] in tr.spec.get("truthy", {}):
@@ -98,7 +105,7 @@ def expr_hook(tr, e, env, want):
                 dd = tr.dicts[dty]
                 if not dd["val"].startswith("O:"):
                     raise U(f".get on a dict of {dd['val']}")
-                k, _ = tr.expr(e.args[0], env, dd["key"])
+                k = typed_expr(tr, e.args[0], env, dd["key"])
                 return f"(dict_get_opt {dd['eqb']} {k} {d})", dd["val"]
         return None
     if isinstance(e, ast.Dict):
@@ -121,14 +128,29 @@ def expr_hook(tr, e, env, want):
                 b, _ = tr.expr(e.right.elts[0], env, t2)
                 return f"({fn} {a} {b})", rty
         raise U(f"{ta} | {{..}}")
+    if isinstance(e, ast.Compare) and len(e.ops) == 1 and isinstance(e.ops[0], (ast.In, ast.NotIn)):
+        b, tb = tr.expr0(e.comparators[0], env)
+        if tr.is_list(tb) and tr.item_of(tb) in tr.spec.get("eqbs", {}):
+            ity = tr.item_of(tb)
+            a = typed_expr(tr, e.left, env, ity)
+            r = f"(existsb ({tr.spec['eqbs'][ity]} {a}) {b})"
+            return (r if isinstance(e.ops[0], ast.In) else f"(negb {r})"), "B"
+        return None
     if isinstance(e, ast.List) and not e.elts and want is not None and tr.is_list(want) and \
             " " in tr.coq_type(tr.item_of(want)):
         return f"(@nil ({tr.coq_type(tr.item_of(want))}))", want     # an empty list of lists / of pairs
-    if isinstance(e, ast.Constant) and isinstance(e.value, str) and e.value in tr.spec.get("strconsts", {}):
-        t, ty = tr.spec["strconsts"][e.value]
-        if want is None or want == ty:
-            return t, ty
     return None
+
+
+def typed_expr(tr, e, env, ty):
+    """an expression of type ty; a string literal the spec declares (spec["strconsts"]: literal -> (coq, type))
+    is that constant"""
+    if isinstance(e, ast.Constant) and isinstance(e.value, str):
+        t, cty = tr.spec.get("strconsts", {}).get(e.value, (None, None))
+        if cty != ty:
+            raise U(f"string literal {e.value!r} used as a {ty}")
+        return t
+    return tr.expr(e, env, ty)[0]
 
 
 def check_message(tr, m, env):
@@ -218,6 +240,21 @@ def try_effect_form(tr, s):
 def stmt_hook(tr, s, rest, env, fin, ind):
     pad = "  " * ind
     spec = tr.spec
+    for ab in spec.get("abstract_blocks", []):
+        # a run of statements accepted only with exactly this text, read as a function of the names it reads
+        n = len(ab["stmts"])
+        if ast.unparse(s) == ab["stmts"][0] and len(rest) >= n - 1 and \
+                all(ast.unparse(x) == tx for x, tx in zip(rest[:n - 1], ab["stmts"][1:])):
+            if tr.loop_depth:
+                raise U("an abstracted block inside a loop")
+            for name, ty in ab["reads"]:
+                if env.get(name) != ty:
+                    raise U(f"the abstracted block reads {name}, which is not a {ty} here")
+            env2, text = env, ""
+            for name, coq, ty in ab["binds"]:
+                env2 = tr.bind(env2, name, ty)
+                text += f"{pad}let {pysrc.cname(name)} := {coq} in\n"
+            return text + tr.block(rest[n - 1:], env2, fin, ind)
     if isinstance(s, ast.AnnAssign) and s.value is None and isinstance(s.target, ast.Name):
         # `x: T` declares the type of a local
         ty = tr.annotations.get(ast.unparse(s.annotation))
@@ -265,7 +302,7 @@ def stmt_hook(tr, s, rest, env, fin, ind):
         name, dty = dn
         check_local(tr, name)
         dd = tr.dicts[dty]
-        k, _ = tr.expr(tg.slice, env, dd["key"])
+        k = typed_expr(tr, tg.slice, env, dd["key"])
         (v, _), hs = tr.hoisted(s.value, env, lambda: tr.expr(s.value, env, dd["val"]))
         pre, post, env2 = tr.hoist_prefix(hs, env, pad)
         return pre + tr.assign(name, f"(dict_set {dd['eqb']} {k} {v} {pysrc.cname(name)})", dty, env2, pad,
